@@ -2282,7 +2282,11 @@ def _to_liquid_string(val: Any, *, auto_escape: bool = False) -> str:
     elif val is None:
         val = ""
     elif isinstance(val, range):
-        val = f"{val.start}..{val.stop - 1}"
+        try:
+            val = f"{val.start}..{val.stop - 1}"
+        except ValueError as err:
+            # Bounds with more digits than sys.get_int_max_str_digits().
+            raise LiquidValueError(str(err), token=None) from err
     elif isinstance(val, Sequence):
         if auto_escape:
             val = Markup("").join(
